@@ -43,6 +43,9 @@ type c17Case struct {
 	BadFirst int        `json:"bad_first"` // the first n connections are answered with an unexpected ASN
 	Sets     [][]c17Adv `json:"sets"`
 	Ops      []c17Op    `json:"ops"`
+	// CloseWhileDown: at the end the peer drops the connection and refuses new ones, the session is closed
+	// while it is between connections, then the peer accepts again (costs > 1 s of back-off, so it is drawn rarely)
+	CloseWhileDown bool `json:"close_while_down,omitempty"`
 }
 
 var c17Prefixes = []string{"10.9.0.1/32", "10.9.0.2/32", "10.9.1.0/24", "10.9.2.128/25", "10.9.0.0/16"}
@@ -83,6 +86,7 @@ func genC17(rt *rapid.T) c17Case {
 		}
 		c.Ops = append(c.Ops, op)
 	}
+	c.CloseWhileDown = rapid.IntRange(0, 11).Draw(rt, "closeWhileDown") == 0
 	return c
 }
 
@@ -117,6 +121,8 @@ type c17Peer struct {
 	fbasn   bool
 	bad     int
 	stopped bool
+	refuse  bool // hang up on new connections before answering the OPEN
+	opens   int  // OPEN messages received
 	wg      sync.WaitGroup
 }
 
@@ -137,6 +143,11 @@ func (p *c17Peer) serve() {
 			return
 		}
 		p.mu.Lock()
+		if p.refuse {
+			p.mu.Unlock()
+			conn.Close()
+			continue
+		}
 		c := &c17Conn{id: len(p.conns), conn: conn, table: map[string]c17Route{}, dropAt: -1}
 		c.bad = c.id < p.bad
 		p.conns = append(p.conns, c)
@@ -190,6 +201,9 @@ func (p *c17Peer) handle(c *c17Conn) {
 		}
 		switch hdr[18] {
 		case 1:
+			p.mu.Lock()
+			p.opens++
+			p.mu.Unlock()
 			asn := p.myASN
 			if c.bad {
 				asn = p.myASN + 7
@@ -462,6 +476,27 @@ func runC17(c c17Case, tr *vw.Trace) *vw.Violation {
 	}
 	if v := wait("before close"); v != nil {
 		return v
+	}
+	if c.CloseWhileDown {
+		tr.Class("close-while-disconnected")
+		p.mu.Lock()
+		p.refuse = true
+		p.mu.Unlock()
+		cur.conn.Close()
+		time.Sleep(40 * time.Millisecond) // the session notices, fails to reconnect and backs off
+		sess.Close()
+		p.mu.Lock()
+		p.refuse = false
+		opensAtClose := p.opens
+		p.mu.Unlock()
+		time.Sleep(1300 * time.Millisecond) // longer than the first back-off step
+		p.mu.Lock()
+		late := p.opens - opensAtClose
+		p.mu.Unlock()
+		if late > 0 {
+			return vw.Violationf("connect-after-close", "the session was closed while it was between connections; %d new BGP OPEN(s) arrived afterwards", late)
+		}
+		return nil
 	}
 	sess.Close()
 	cur.conn.Close() // the peer hangs up as well: a live session would reconnect now
